@@ -724,7 +724,8 @@ def run(ctx):
         "max_levels_ended_at_once_histogram": dict(sorted(exit_hist.items())),
         "trees_with_multi_level_exit": multi, "multi_level_exit_ratio": round(multi / max(1, ok_trees), 3),
         "trees_disagreeing_with_model": len(model_bad), "trees_violating_spec_outside_D6": len(spec_bad),
-        "trees_in_D6_class": len(d6_trees), "items_in_D6_class": d6_items, "panics": len(panics),
+        "trees_in_D6_class": len(d6_trees), "items_in_D6_class": d6_items,
+        "trees_with_multi_level_exit_that_still_meet_the_spec": multi - len(d6_trees) if status != "fixed" else multi, "panics": len(panics),
         "not_evaluable": len(harness_bad)})
     if multi < 0.3 * max(1, ok_trees):
         ctx.log(f"warning: only {multi}/{ok_trees} trees have a multi-level exit")
